@@ -28,8 +28,18 @@ fn scale() -> f64 {
         .unwrap_or(1.0)
 }
 
+/// a runaway allocation must kill this process (abort on allocation failure), not the machine
+fn limit_address_space() {
+    let gb = env_u64("VERIF_MEM_GB", 12);
+    unsafe {
+        let lim = libc::rlimit { rlim_cur: gb << 30, rlim_max: gb << 30 };
+        libc::setrlimit(libc::RLIMIT_AS, &lim);
+    }
+}
+
 pub fn worker_main(def: &'static PropDef, tier: Tier, seed: u64, shard: u32, nshards: u32) {
     install_panic_hook();
+    limit_address_space();
     let wd = work_dir(def.id);
     let cfg = RunCfg {
         tier,
@@ -89,6 +99,7 @@ pub fn worker_main(def: &'static PropDef, tier: Tier, seed: u64, shard: u32, nsh
 
 pub fn slow_main(def: &'static PropDef, sub: &str, start: u64, count: u64) {
     install_panic_hook();
+    limit_address_space();
     let wd = work_dir(def.id);
     let cfg = RunCfg {
         tier: Tier::Quick,
@@ -110,6 +121,7 @@ pub fn slow_main(def: &'static PropDef, sub: &str, start: u64, count: u64) {
 
 pub fn replay_main(def: &'static PropDef, path: &str) -> i32 {
     install_panic_hook();
+    limit_address_space();
     let doc = match load_replay(path) {
         Ok(d) => d,
         Err(e) => {
